@@ -188,6 +188,18 @@ var c19Components = []struct {
 	{"[Z0101]", func(c civil) string { return offsetText(c.OffMin, "", false) }},
 	{"[Z01:01t]", func(c civil) string { return offsetText(c.OffMin, ":", true) }},
 	{"[z]", func(c civil) string { return "GMT" + offsetText(c.OffMin, ":", false) }},
+	// width modifiers on numeric components: a minimum width pads with zeros, a
+	// maximum width on the year keeps the low-order digits
+	{"[D1,2]", func(c civil) string { return fmt.Sprintf("%02d", c.D) }},
+	{"[M1,2]", func(c civil) string { return fmt.Sprintf("%02d", c.M) }},
+	{"[H1,2]", func(c civil) string { return fmt.Sprintf("%02d", c.H) }},
+	{"[m1,3]", func(c civil) string { return fmt.Sprintf("%03d", c.Mi) }},
+	{"[s1,2]", func(c civil) string { return fmt.Sprintf("%02d", c.S) }},
+	{"[d,5]", func(c civil) string { return fmt.Sprintf("%05d", c.Doy) }},
+	{"[W1,3]", func(c civil) string { return fmt.Sprintf("%03d", c.IsoW) }},
+	{"[Y,6]", func(c civil) string { return fmt.Sprintf("%06d", c.Y) }},
+	{"[Y,2-2]", func(c civil) string { return fmt.Sprintf("%02d", c.Y%100) }},
+	{"[D01,1]", func(c civil) string { return fmt.Sprintf("%02d", c.D) }},
 }
 
 var c19Pic string
